@@ -98,9 +98,10 @@ def norm(s):
 
 
 class Source:
-    def __init__(self, path, text):
+    def __init__(self, path, text, line_base=0):
         self.path = path
         self.text = text
+        self.line_base = line_base
         self.masked = mask(text)
         # blank out #[cfg(test)] modules and items
         for m in list(re.finditer(r'#\[cfg\(test\)\]', self.masked)):
@@ -113,13 +114,18 @@ class Source:
             self.masked = self.masked[:m.start()] + re.sub(r'[^\n]', ' ', self.masked[m.start():end]) + self.masked[end:]
 
     def line_of(self, off):
-        return self.text.count('\n', 0, off) + 1
+        return self.line_base + self.text.count('\n', 0, off) + 1
 
     # ---- containers -------------------------------------------------------
     def find_container(self, header, lo=0, hi=None):
         """`impl ... ` / `mod x` / `trait X` block whose header (text up to '{') equals
         `header` modulo whitespace.  Returns (start, open_brace, close_brace)."""
         hi = len(self.text) if hi is None else hi
+        sub = None
+        if header.startswith('~'):
+            # `~TEXT`: the unique impl/mod/trait whose header contains TEXT (modulo whitespace)
+            sub = norm(header[1:])
+            header = 'impl ' + header[1:]
         want = norm(header)
         kw = re.match(r'\s*(?:pub(?:\([a-z]+\))?\s+)?(unsafe\s+)?(impl|mod|trait)\b', header)
         if not kw:
@@ -135,7 +141,7 @@ class Source:
                 continue
             head = self.text[s:j]
             head_n = norm(re.sub(r'^\s*pub(\([a-z]+\))?\s+', '', head))
-            if head_n == want or head_n == norm(re.sub(r'^\s*pub(\([a-z]+\))?\s+', '', header)):
+            if (sub is not None and sub in head_n) or (sub is None and (head_n == want or head_n == norm(re.sub(r'^\s*pub(\([a-z]+\))?\s+', '', header)))):
                 found.append((s, j, match_close(self.masked, j)))
         if len(found) != 1:
             raise ExtractError('%s: container %r found %d times' % (self.path, header, len(found)))
